@@ -34,6 +34,14 @@ CLAIMS = {
         "async client runs on scripted sockets with the real 65539-byte constants and every recorded system call is validated by TLC against the same actions.",
    note="Bounds: MC MAX=3 (quick) / MAX=4 (thorough), <=3 PDUs, 2 requests, 2 connections; traces: 60/600 scenarios with PDUs 2..65539 bytes. Blocking TCP client not covered here. Two defects found and fixed (F-C14-1, F-C14-2).",
    technique="TLC model checking + TLC trace validation of every wrapped system call of the real TCP async client"),
+ "C16": dict(level="model_checking", design_ref="DESIGN.md 4/C16",
+   text="TreeBuilder.tla models the binary-counter forest of KSI_TreeBuilder (carry on add, pre-check and refusal, close, chain extraction) with nodes "
+        "as leaf ranges; TLC checks in every reachable state that each extracted chain recomputes the root by the independent chain formula (ProofsHold), "
+        "that the tree equals the independently defined canonical merge (Canonical), WithinLimit and RefusalsLeaveNoTrace, and exports every complete "
+        "behaviour; each is replayed on the real builder: accept/refuse per leaf, root hash/level and every chain link by link, plus re-aggregation of the "
+        "extracted chains by the reference formula.",
+   note="Bounds: all leaf sequences <=4..5 (quick) / <=5..7 (thorough) over {hash,metadata} x level alphabets for maximum levels {none,2,3,255}; uniform trees to 33/70 leaves. The block-signer half (masking, metadata, reset==new, signatures) is not yet bound. Defect F-C16-1 fixed.",
+   technique="TLC model checking of the builder state machine + replay of all TLC behaviours into KSI_TreeBuilder with hashlib-concretised terms"),
 }
 for e in ENGINES:
     e["serves_properties"] = sorted(CLAIMS)
